@@ -111,10 +111,11 @@ def run(ctx):
         num = pa ** s * (1 - pa) ** (n - s); den = po ** s * (1 - po) ** (n - s)
         if min(num, den) < Fr(1, 10**305):      # would underflow in doubles: outside what doubles can represent
             continue
-        r = guarded(S.bernoulli_lh_ratio, np.array(x), float(po), float(pa))
-        ctx.case(("long-lr", po, pa, n, s), True); ctx.count("long-samples")
+        ldt = ctx.rng.choice([np.int64, np.int8, np.uint8, np.int16, bool, np.float32, np.float16, np.int8]); ctx.count("long-sample-dtype-" + np.dtype(ldt).name)
+        r = guarded(S.bernoulli_lh_ratio, np.array(x, dtype=ldt), float(po), float(pa))
+        ctx.case(("long-lr", po, pa, n, s, np.dtype(ldt).name), True); ctx.count("long-samples")
         if r[0] != "ok" or not close(r[1], num / den, rel=1e-7):
-            ctx.violation("oracle", {"call": "bernoulli_lh_ratio", "po": po, "pa": pa, "length": n, "ones": s, "returned": str(r[1:])[:100],
+            ctx.violation("oracle", {"call": "bernoulli_lh_ratio", "po": po, "pa": pa, "length": n, "ones": s, "dtype": np.dtype(ldt).name, "returned": str(r[1:])[:100],
                                      "expected": float(num / den), "issue": "not the product over observations of (pa/po)^x ((1-pa)/(1-po))^(1-x) on a long sample"}, site="bernoulli_lh_ratio")
             continue
         if ctx.rng.random() < 0.4:
